@@ -311,4 +311,107 @@ theorem C09_reopen_partial (o : BundleOracle) (root : Str) (st : BState)
           rw [hx2, bn_verDeprec_mkVer, ← hx1])]
       rfl
 
+/-- **C09_reopen_tables_partial.** The same with the two book-keeping facts of builder runs made
+explicit — metadata is only recorded for fetched packages, and a deprecation entry is recorded
+exactly with a resolved version (`findRegistrySource` conses both at once): then the opened bundle's
+metadata and deprecation tables are the builder's, up to the dropped commit-less metadata. -/
+theorem C09_reopen_tables_partial (o : BundleOracle) (root : Str) (st : BState)
+    (hpkg : ∀ e ∈ st.pkgDirs, o.parsePkg e.1 = some e.1 ∧ validLocalDir e.2 = true)
+    (hreg : ∀ e ∈ st.resolved, o.parseRegPkg e.1.1 = some e.1.1 ∧ o.parseVer e.1.2 = some e.1.2 ∧
+      o.parseRemoteSrc (printSrc e.2) = some (e.2.pkg, e.2.sub))
+    (hnd1 : (st.pkgDirs.map Prod.fst).Nodup) (hnd2 : (st.resolved.map Prod.fst).Nodup)
+    (hmeta : ∀ k, assoc st.pkgDirs k = none → assoc st.pkgMeta k = none)
+    (hdep : ∀ k, (assoc st.deprec k).isSome = (assoc st.resolved k).isSome) :
+    ∃ b, openDir o root (manifestOf st) = some b ∧ b.root = root ∧
+      (∀ k, aget b.pkgDirs k = assoc st.pkgDirs k) ∧
+      (∀ k, aget b.pkgMeta k = (assoc st.pkgMeta k).filter (fun m => m.1 ≠ [])) ∧
+      (∀ r v, aget b.regSources (r, v) = (assoc st.resolved (r, v)).map (fun s => (s.pkg, s.sub))) ∧
+      (∀ r v, aget b.regDeprec (r, v) = assoc st.deprec (r, v)) := by
+  obtain ⟨b, h0, h1, h2, h3, h4, h5⟩ := C09_reopen_partial o root st hpkg hreg hnd1 hnd2
+  refine ⟨b, h0, h1, h2, ?_, h4, ?_⟩
+  · intro k
+    rw [h3 k]
+    cases hk : assoc st.pkgDirs k with
+    | none => rw [hmeta k hk]; rfl
+    | some d => rfl
+  · intro r v
+    rw [h5 r v]
+    have := hdep (r, v)
+    cases hk : assoc st.resolved (r, v) with
+    | none =>
+      rw [hk] at this
+      cases hd : assoc st.deprec (r, v) with
+      | none => rfl
+      | some x => rw [hd] at this; cases this
+    | some s =>
+      rw [hk] at this
+      cases hd : assoc st.deprec (r, v) with
+      | none => rw [hd] at this; cases this
+      | some x => rfl
+
+/-! ## non-vacuity, and why the hypotheses are there -/
+
+/-- an oracle whose source parser is the model of the real splitter -/
+def bnReopenOracle : BundleOracle :=
+  { parsePkg := fun s => some s, parseRegPkg := fun s => some s, parseVer := fun s => some s,
+    parseRemoteSrc := fun s => some (splitSubPath s) }
+
+def bnReopenState : BState :=
+  { BState.init with
+    pkgDirs := [("git::https://example.com/b.git".toList, "h2".toList),
+                ("git::https://example.com/a.git".toList, "h1".toList)],
+    pkgMeta := [("git::https://example.com/b.git".toList, ([], "no commit id".toList)),
+                ("git::https://example.com/a.git".toList, ("abc".toList, "m".toList))],
+    resolved := [(("example.com/ns/mod/aws".toList, "1.0.0".toList),
+                  { pkg := "git::https://example.com/a.git".toList, sub := "modules/x".toList }),
+                 (("example.com/ns/mod/aws".toList, "0.9.0".toList),
+                  { pkg := "git::https://example.com/a.git".toList, sub := [] })],
+    deprec := [(("example.com/ns/mod/aws".toList, "1.0.0".toList), none),
+               (("example.com/ns/mod/aws".toList, "0.9.0".toList), some ("old".toList, "l".toList))] }
+
+/-- the hypotheses of `C09_reopen_tables_partial` hold for this state and oracle -/
+example : (∀ e ∈ bnReopenState.pkgDirs, bnReopenOracle.parsePkg e.1 = some e.1 ∧ validLocalDir e.2 = true) ∧
+    (∀ e ∈ bnReopenState.resolved, bnReopenOracle.parseRegPkg e.1.1 = some e.1.1 ∧
+      bnReopenOracle.parseVer e.1.2 = some e.1.2 ∧
+      bnReopenOracle.parseRemoteSrc (printSrc e.2) = some (e.2.pkg, e.2.sub)) ∧
+    (bnReopenState.pkgDirs.map Prod.fst).Nodup ∧ (bnReopenState.resolved.map Prod.fst).Nodup := by
+  decide
+
+/-- one registry row with two version rows -/
+example : ((manifestOf bnReopenState).registry.map (fun r => (r.source, r.versions.map (·.ver))))
+    = [("example.com/ns/mod/aws".toList, ["1.0.0".toList, "0.9.0".toList])] := by decide
+example : ((manifestOf bnReopenState).registry.flatMap (fun r => r.versions.map (·.source)))
+    = ["git::https://example.com/a.git//modules/x".toList, "git::https://example.com/a.git".toList] := by
+  decide
+
+/-- the re-opened tables, computed: the message without commit id is gone, everything else is back -/
+example : (openDir bnReopenOracle "/b".toList (manifestOf bnReopenState)).map (·.pkgMeta)
+    = some [("git::https://example.com/a.git".toList, ("abc".toList, "m".toList))] := by decide
+example : (openDir bnReopenOracle "/b".toList (manifestOf bnReopenState)).map
+      (fun b => aget b.pkgDirs "git::https://example.com/a.git".toList) = some (some "h1".toList) := by
+  decide
+example : (openDir bnReopenOracle "/b".toList (manifestOf bnReopenState)).map
+      (fun b => aget b.regSources ("example.com/ns/mod/aws".toList, "1.0.0".toList))
+    = some (some ("git::https://example.com/a.git".toList, "modules/x".toList)) := by decide
+example : (openDir bnReopenOracle "/b".toList (manifestOf bnReopenState)).map
+      (fun b => aget b.regDeprec ("example.com/ns/mod/aws".toList, "0.9.0".toList))
+    = some (some (some ("old".toList, "l".toList))) := by decide
+
+/-- **C09_cex_meta_dropped.** Metadata is *not* preserved in general: a commit message recorded
+without a commit id is written to the manifest but dropped by `OpenDir`. -/
+theorem C09_cex_meta_dropped :
+    assoc bnReopenState.pkgMeta "git::https://example.com/b.git".toList
+      = some ([], "no commit id".toList) ∧
+    (openDir bnReopenOracle "/b".toList (manifestOf bnReopenState)).map
+      (fun b => aget b.pkgMeta "git::https://example.com/b.git".toList) = some none := by decide
+
+/-- **C09_cex_shadowed.** The distinct-keys hypothesis is needed: with a shadowed duplicate in the
+association list (never produced by a builder run) the later row overrides, so the re-opened
+table shows the shadowed value. -/
+theorem C09_cex_shadowed :
+    let st : BState := { BState.init with pkgDirs := [("k".toList, "new".toList), ("k".toList, "old".toList)] }
+    assoc st.pkgDirs "k".toList = some "new".toList ∧
+    (openDir bnReopenOracle "/b".toList (manifestOf st)).map (fun b => aget b.pkgDirs "k".toList)
+      = some (some "old".toList) := by decide
+
 end Slug
